@@ -393,7 +393,8 @@ fn build_evidence(
             "token equality is compared as proc_macro2::TokenStream::to_string(); spans are ignored".into(),
             "in-process runs use proc-macro2's fallback (non-compiler) implementation; the bridge is covered only by the real-bridge sample".into(),
             "verif::expand mirrors lib.rs::invoke; drift is detected (not prevented) by the real-bridge tier".into(),
-            "heap addresses and file I/O outside cwd/HOME/TMPDIR/OUT_DIR are not owned by the simulator; a dependence on them is detected as divergence but its replay is not guaranteed exact".into(),
+            "heap addresses, and file I/O at absolute paths other than /tmp, /var/tmp, /dev/shm and the home directory (those four are private bind mounts onto the run's simulated disk, as are cwd/HOME/TMPDIR), are not owned by the simulator; a dependence on them is detected as divergence but its replay is not guaranteed exact".into(),
+            "one of the two reference sessions of every program runs the simulator built with debug assertions and overflow checks (build flavour as part of the environment)".into(),
             "a clean batch is evidence, not proof".into(),
         ],
         wall_s: wall,
